@@ -154,3 +154,103 @@ contract('datatypes.SocketAddress.__init__', params={'s': 'str'},
                   Clause("implies('/' not in s, self.family == (ext('socket.AF_INET6') if ':' in inet_spec(s, '')[1] else ext('socket.AF_INET')))",
                          carries='C09', label='a-colon-in-the-host-means-ipv6')],
          raises=[Raise('ValueError', when="'/' not in s and inet_spec(s, '')[0] == 1", carries='C09', label='bad-inet-address')])
+
+# --- the small stock conversions (C09) ------------------------------------------------------------
+import os.path as _osp
+contract('datatypes.null_conversion', params={'value': 'str'}, returns='str',
+         ensures=[Clause('result == value', carries='C09', label='identity')])
+
+prim('words', 'str -> Seq[str]', native=lambda s: s.split(), args=['s'],
+     axioms=['len(result) == word_count(s)',
+             'forall(lambda j: implies(0 <= j and j < len(result), len(result[j]) > 0))'])     # words are never empty
+assumed('str.split', params={'self': 'str'}, returns='Seq[str]', pure=True,
+        ensures=[Clause('result == words(self) and len(result) == word_count(self)')],
+        notes='str.split(): the whitespace-separated words, in order (words() IS str.split)')
+contract('datatypes.string_list', params={'s': 'str'}, returns='Seq[str]',
+         ensures=[Clause('result == words(s)', carries='C09', label='the-whitespace-separated-words-in-order')])
+
+prim('float_ok', 'str -> bool', native=lambda s: __import__('pyvc.natives', fromlist=['x']).float_ok(s))
+prim('float_of', 'str -> Opaque[float]', native=lambda s: float(s))
+assumed('builtins.float', params={'x': 'str'}, returns='Opaque[float]', pure=True,
+        ensures=[Clause('result == float_of(x)')],
+        raises=[Raise('ValueError', when='not float_ok(x)')],
+        notes="float(str) returns a float or raises ValueError; its accepted grammar is CPython's (inf / nan included: KF-C09-float)")
+contract('datatypes.float_conversion', params={'v': 'str'}, returns='Opaque[float]',
+         ensures=[Clause('result == float_of(v)', carries='C09', label='the-float-the-text-denotes')],
+         raises=[Raise('ValueError', when='not float_ok(v)', carries='C09', label='not-a-float')])
+
+# existing-* : the path with '~' expanded, provided the file system has it (os.path is assumed)
+prim('expanduser', 'str -> str', native=_osp.expanduser)
+prim('fs_isdir', 'str -> bool', native=_osp.isdir)
+prim('fs_exists', 'str -> bool', native=_osp.exists)
+prim('path_dirname', 'str -> str', native=_osp.dirname)
+assumed('os.path.expanduser', params={'path': 'str'}, returns='str', pure=True, ensures=[Clause('result == expanduser(path)')],
+        notes='os.path.expanduser')
+assumed('os.path.isdir', params={'s': 'str'}, returns='bool', pure=True, ensures=[Clause('result == fs_isdir(s)')],
+        notes='os.path.isdir: the state of the file system at the time of the call')
+assumed('os.path.exists', params={'path': 'str'}, returns='bool', pure=True, ensures=[Clause('result == fs_exists(path)')],
+        notes='os.path.exists: the state of the file system at the time of the call')
+assumed('os.path.dirname', params={'p': 'str'}, returns='str', pure=True, ensures=[Clause('result == path_dirname(p)')],
+        notes='os.path.dirname')
+contract('datatypes.existing_directory', params={'v': 'str'}, returns='str',
+         ensures=[Clause('result == expanduser(v) and fs_isdir(expanduser(v))', carries='C09', label='expanded-path-of-a-directory')],
+         raises=[Raise('ValueError', when='not fs_isdir(expanduser(v))', carries='C09', label='no-such-directory')])
+contract('datatypes.existing_path', params={'v': 'str'}, returns='str',
+         ensures=[Clause('result == expanduser(v) and fs_exists(expanduser(v))', carries='C09', label='expanded-path-that-exists')],
+         raises=[Raise('ValueError', when='not fs_exists(expanduser(v))', carries='C09', label='no-such-path')])
+contract('datatypes.existing_file', params={'v': 'str'}, returns='str',
+         ensures=[Clause('result == expanduser(v) and fs_exists(expanduser(v))', carries='C09', label='expanded-path-that-exists')],
+         raises=[Raise('ValueError', when='not fs_exists(expanduser(v))', carries='C09', label='no-such-file')])
+contract('datatypes.existing_dirpath', params={'v': 'str'}, returns='str',
+         ensures=[Clause("result == expanduser(v) and (path_dirname(expanduser(v)) == '' or fs_isdir(path_dirname(expanduser(v))))",
+                         carries='C09', label='expanded-path-whose-directory-exists')],
+         raises=[Raise('ValueError', when="path_dirname(expanduser(v)) != '' and not fs_isdir(path_dirname(expanduser(v)))",
+                       carries='C09', label='no-such-directory')])
+
+# memoised conversion (locale): the memo only ever holds results of the wrapped conversion
+prim('mconv_raises', 'Fun[mconv], str -> bool')
+prim('mconv_val', 'Fun[mconv], str -> Opaque[PyVal]')
+assumed('fun:mconv', params={'fn': 'Fun[mconv]', 'x': 'str'}, returns='Opaque[PyVal]', pure=True,
+        ensures=[Clause('result == mconv_val(fn, x)')],
+        raises=[Raise('ValueError', when='mconv_raises(fn, x)')],
+        notes='the conversion wrapped by MemoizedConversion: a function of its argument that returns or raises ValueError')
+model('datatypes.MemoizedConversion', fields={'_memo': 'Map[str, Opaque[PyVal]]', '_conversion': 'Fun[mconv]'},
+      invariant=[Clause("forall('str', lambda x: implies(x in self._memo, not mconv_raises(self._conversion, x) and "
+                        "self._memo[x] == mconv_val(self._conversion, x)))", label='memo-holds-only-results-of-the-conversion')])
+contract('datatypes.MemoizedConversion.__init__', params={'conversion': 'Fun[mconv]'},
+         ensures=[Clause('len(self._memo) == 0 and self._conversion == conversion', carries='C09', label='empty-memo')])
+contract('datatypes.MemoizedConversion.__call__', params={'value': 'str'}, returns='Opaque[PyVal]',
+         modifies=['self._memo'],
+         ensures=[Clause('result == mconv_val(self._conversion, value)', carries='C09',
+                         label='same-result-as-the-wrapped-conversion-memoised-or-not'),
+                  Clause('self._memo == old(self._memo) or self._memo == updated(old(self._memo), value, result)',
+                         carries='C09', label='only-this-result-is-remembered')],
+         raises=[Raise('ValueError', when='mconv_raises(self._conversion, value)',
+                       then=[Clause('self._memo == old(self._memo)', label='failures-are-not-remembered')],
+                       carries='C09', label='failures-pass-through')])
+
+# --- timedelta ---------------------------------------------------------------------------------------
+define_type('Num', TUnion('Num', [('i', parse_type('int')), ('f', parse_type('Opaque[float]'))]))
+prim('td_make', 'Num, Num, Num, Num, Num -> Opaque[timedelta]')
+prim('td_overflows', 'Num, Num, Num, Num, Num -> bool')
+assumed('datetime.timedelta', params={'weeks': 'Num', 'days': 'Num', 'hours': 'Num', 'minutes': 'Num', 'seconds': 'Num'},
+        returns='Opaque[timedelta]', pure=True,
+        ensures=[Clause('result == td_make(weeks, days, hours, minutes, seconds)')],
+        raises=[Raise('OverflowError', when='td_overflows(weeks, days, hours, minutes, seconds)')],
+        notes='datetime.timedelta(weeks=, days=, hours=, minutes=, seconds=): the interval, or OverflowError for infinite / '
+              'too large amounts')
+_W = "words(s)"
+_UNITS = [('weeks', 'w'), ('days', 'd'), ('hours', 'h'), ('minutes', 'm'), ('seconds', 's')]
+_TD_ARGS = ', '.join("td_last(%s, 0, '%s', 0)" % (_W, u) for _, u in _UNITS)
+contract('datatypes.timedelta', params={'s': 'str'}, returns='Opaque[timedelta]',
+         ensures=[Clause('td_scan(%s, 0) == 0' % _W, carries='C09', label='every-word-is-a-number-and-a-unit-letter'),
+                  Clause('result == td_make(%s)' % _TD_ARGS, carries='C09', label='interval-of-the-last-amount-given-per-unit')],
+         raises=[Raise('ValueError', when='td_scan(%s, 0) == 1 or (td_scan(%s, 0) == 0 and td_overflows(%s))' % (_W, _W, _TD_ARGS),
+                       carries='C09', label='malformed-number-or-out-of-range'),
+                 Raise('TypeError', when='td_scan(%s, 0) == 2' % _W, carries='C09', label='unknown-unit-letter')],
+         hints=['td_scan(%s, 0)' % _W],
+         loops=[Loop(invariant=[Clause('td_scan(%s, _i0) == td_scan(%s, 0)' % (_W, _W), label='remaining-scan-equals-scan')] +
+                               [Clause("td_last(%s, _i0, '%s', %s) == td_last(%s, 0, '%s', 0)" % (_W, u, n, _W, u),
+                                       label='amount-of-%s-so-far' % n) for n, u in _UNITS],
+                     hints=['td_scan(%s, _i0)' % _W] + ["td_last(%s, _i0, '%s', %s)" % (_W, u, n) for n, u in _UNITS],
+                     locals=dict([(n, 'Num') for n, _ in _UNITS] + [('val', 'Opaque[float]'), ('suffix', 'str'), ('part', 'str')]))])
